@@ -1,4 +1,4 @@
-import Zc.Proofs.IngestRead
+import Zc.Proofs.PostState
 import Zc.Props.C05
 /-! # C06 — response ingestion and the record-update listener contract
 
@@ -12,83 +12,6 @@ namespace Zc
 
 section
 variable (lower : String → String)
-
-/-- what a datagram does to a record `e` that stays cached: refreshed by the last live copy of itself
-(arrival time, received TTL, pointer TTLs floored to 1125 s); otherwise marked to expire in one second iff the
-flush applies (`Flushed`: a cache-flush record of the same name/type/class is in the datagram, `e` is older
-than one second, and `e` itself is not in the datagram); otherwise untouched. -/
-def Refreshed (now : Ms) (recs : List Rec) (e e' : Rec) : Prop :=
-  match lastLive lower recs e with
-  | some r => e' = e.setLife now (storedTtl r.type r.ttl)
-  | none => (Flushed lower now recs e → e' = e.setLife now 1) ∧ (¬ Flushed lower now recs e → e' = e)
-
-/-- the property's post-state for the identity of `q`: `before`/`after` are what the cache holds for it -/
-def PostState (now : Ms) (recs : List Rec) (q : Rec) (before after : Option Rec) : Prop :=
-  match before with
-  | some e =>
-    -- cached: a goodbye copy removes it (even if another copy refreshes it); else it stays, `Refreshed`
-    if hasGoodbye lower recs q then after = none
-    else ∃ e', after = some e' ∧ Refreshed lower now recs e e'
-  | none =>
-    -- not cached: goodbyes are ignored; the last live copy is stored with the arrival time and its (floored) TTL
-    after = (lastLive lower recs q).map (asStored now)
-
-variable {lower}
-
-theorem copiesOf_congr (recs : List Rec) {e q : Rec} (h : e.ident lower = q.ident lower) : copiesOf lower recs e = copiesOf lower recs q := by
-  unfold copiesOf; rw [h]
-
-theorem lastLive_congr (recs : List Rec) {e q : Rec} (h : e.ident lower = q.ident lower) : lastLive lower recs e = lastLive lower recs q := by
-  unfold lastLive; rw [copiesOf_congr recs h]
-
-theorem not_flushed_fresh (now : Ms) (recs : List Rec) (e : Rec) (t : Nat) : ¬ Flushed lower now recs (e.setLife now t) := by
-  rintro ⟨_, h, _⟩
-  simp only [created_setLife] at h
-  rw [Int.sub_self] at h
-  exact absurd h (by decide)
-
-/-- refresh followed by flush, in the property's words -/
-theorem refreshed_markOne_refresh (now : Ms) (recs : List Rec) (e : Rec) :
-    Refreshed lower now recs e (markOne lower now (effective now recs) (refresh lower now (effective now recs) e)) := by
-  unfold Refreshed
-  rw [refresh_effective]
-  cases hl : lastLive lower recs e with
-  | some r =>
-    simp only []
-    unfold markOne
-    rw [if_neg]
-    rw [flushHit_effective]
-    exact not_flushed_fresh now recs e _
-  | none =>
-    simp only []
-    unfold markOne
-    constructor
-    · intro hf; rw [if_pos ((flushHit_effective now recs e).2 hf)]
-    · intro hf; rw [if_neg (fun hc => hf ((flushHit_effective now recs e).1 hc))]
-
-/-- the per-identity post-state of the reference store -/
-theorem Flat.postState (s : List Rec) (now : Ms) (recs : List Rec) :
-    ∃ o, ingest lower (Flat.ops lower) s now recs = .ok o
-      ∧ ∀ q, PostState lower now recs q (Flat.getUnique lower s q) (Flat.getUnique lower o.cache q) := by
-  obtain ⟨o, ho, hq⟩ := Flat.ingest_post (lower := lower) s now recs
-  refine ⟨o, ho, fun q => ?_⟩
-  have h := hq q
-  rw [effective_any_goodbye, effective_lastLive] at h
-  unfold PostState
-  cases hb : Flat.getUnique lower s q with
-  | none =>
-    have : Flat.pres lower s q = false := (Flat.getUnique_eq_none s q).1 hb
-    simpa [this] using h
-  | some e =>
-    have hp : Flat.pres lower s q = true := by rw [← Flat.getUnique_isSome, hb]; rfl
-    simp only [hp, if_true, hb, Option.map_some] at h
-    simp only []
-    by_cases hg : hasGoodbye lower recs q = true
-    · simpa [hg] using h
-    · simp only [hg, Bool.false_eq_true, if_false] at h ⊢
-      exact ⟨_, h, refreshed_markOne_refresh now recs e⟩
-
-variable (lower)
 
 /-- **C06 (post-state; no `KeyError`).**  After any history, a response datagram `recs` arriving at `now` is
 processed without raising, and for every record identity: a cached record with a zero-TTL copy in the datagram
